@@ -29,6 +29,41 @@ def sh(cmd, timeout=None, cwd=None, env=None, inp=None):
         return 'TIMEOUT', so, se
 
 
+def sh_progress(cmd, inp, env=None, timeout=600, stall=15):
+    """like sh() for a harness that prints (and flushes) one line per input line: the process is killed when it
+    produces no new output for [stall] seconds, so that a hanging case costs seconds, not the batch timeout"""
+    import threading, time
+    p = subprocess.Popen(cmd, stdin=subprocess.PIPE, stdout=subprocess.PIPE, stderr=subprocess.PIPE, env=env)
+    chunks = []; errs = []; last = [time.time()]
+    def feed():
+        try:
+            p.stdin.write(inp.encode()); p.stdin.close()
+        except (BrokenPipeError, OSError):
+            pass
+    def rd():
+        while True:
+            b = p.stdout.read1(65536)
+            if not b: break
+            chunks.append(b); last[0] = time.time()
+    def rde():
+        while True:
+            b = p.stderr.read1(65536)
+            if not b: break
+            errs.append(b)
+    ts = [threading.Thread(target=f, daemon=True) for f in (feed, rd, rde)]
+    for t in ts: t.start()
+    t0 = time.time(); rc = None
+    while True:
+        try:
+            rc = p.wait(timeout=0.2); break
+        except subprocess.TimeoutExpired:
+            now = time.time()
+            if now - last[0] > stall or now - t0 > timeout:
+                p.kill(); p.wait(); rc = 'TIMEOUT'; break
+    for t in ts[1:]: t.join(timeout=2)
+    return rc, b''.join(chunks).decode('utf8', 'replace'), b''.join(errs).decode('utf8', 'replace')
+
+
 def tree_hash(paths, extra=''):
     h = hashlib.sha256()
     h.update(extra.encode())
@@ -191,35 +226,54 @@ class Check:
             raise RuntimeError('modelrun failed rc=%s: %s (got %d lines for %d cases)' % (rc, se[-500:], len(lines), len(cases)))
         return lines
 
-    def run_impl(self, exe, cases, timeout=300, per_case_timeout=20, env=None, args=None):
-        """run the implementation harness on all cases in one process; when it dies or hangs,
-        fall back to one process per remaining case so that a crash/hang is an observation."""
+    def run_impl(self, exe, cases, timeout=300, per_case_timeout=20, env=None, args=None, max_fail=None, stall=None):
+        """run the implementation harness on all cases in one process; when it dies or hangs, the case it
+        stopped at is run alone (so that a crash/hang is an observation of that case) and the batch resumes
+        after it. With max_fail, cases after that many crashes/hangs are reported as NOTRUN."""
         e = dict(os.environ)
         e.setdefault('ASAN_OPTIONS', 'detect_leaks=0:abort_on_error=0:exitcode=99')
         e.setdefault('UBSAN_OPTIONS', 'print_stacktrace=1:halt_on_error=1:exitcode=98')
         if env:
             e.update(env)
-        out = []
         cmd = [exe] + (args or [])
-        rc, so, se = sh(cmd, inp='\n'.join(cases) + '\n', timeout=timeout, env=e)
-        lines = so.splitlines()
-        if rc == 0 and len(lines) == len(cases):
-            return lines
-        # keep complete lines, then go one by one
-        done = lines[:-1] if (lines and not so.endswith('\n')) else lines
-        done = done[:len(cases)]
-        out = list(done)
-        for c in cases[len(done):]:
-            rc1, so1, se1 = sh(cmd, inp=c + '\n', timeout=per_case_timeout, env=e)
+        out = []
+        fails = 0
+        rest = list(cases)
+        while rest:
+            if max_fail is not None and fails >= max_fail:
+                out += ['NOTRUN'] * len(rest)
+                break
+            bt = min(timeout, per_case_timeout * len(rest))     # a single case never gets more than its own timeout
+            if stall:
+                rc, so, se = sh_progress(cmd, '\n'.join(rest) + '\n', env=e, timeout=bt, stall=stall)
+            else:
+                rc, so, se = sh(cmd, inp='\n'.join(rest) + '\n', timeout=bt, env=e)
+            lines = so.splitlines()
+            if rc == 0 and len(lines) == len(rest):
+                out += lines
+                break
+            # keep complete lines, run the case it stopped at alone, resume after it
+            done = lines[:-1] if (lines and not so.endswith('\n')) else lines
+            done = done[:len(rest)]
+            out += done
+            rest = rest[len(done):]
+            if not rest:
+                break
+            c = rest.pop(0)
+            if rc == 'TIMEOUT' and not rest and not done:
+                rc1, so1, se1 = rc, so, se
+            else:
+                rc1, so1, se1 = sh(cmd, inp=c + '\n', timeout=per_case_timeout, env=e)
             if rc1 == 'TIMEOUT':
-                out.append('HANG')
+                out.append('HANG'); fails += 1
             elif rc1 != 0:
                 kind = 'CRASH'
                 m = re.search(r'(AddressSanitizer: [\w-]+|runtime error: [^\n]{0,80}|terminate called[^\n]{0,80})', se1 or '')
-                out.append(kind + (' ' + m.group(1).replace(' ', '_') if m else ' rc=%s' % rc1))
+                out.append(kind + (' ' + m.group(1).replace(' ', '_') if m else ' rc=%s' % rc1)); fails += 1
             else:
                 l1 = so1.splitlines()
                 out.append(l1[0] if l1 else 'NOOUTPUT')
+                if not l1: fails += 1
         return out
 
     # ------------------------------------------------------------------ reporting
